@@ -354,7 +354,11 @@ func runXZWriter(k xzCase) *xzRun {
 	}
 	cfg = k.config()
 	run.Panic = mon.Guard(func() {
-		w, err := k.newWriterLife(run.Sink)
+		// what the writer is connected to (by case seed): the recording sink, a *bufio.Writer in
+		// front of it, a *bytes.Buffer
+		target, finish := sinkKind(k.Seed>>7, run.Sink)
+		defer finish()
+		w, err := k.newWriterLife(target)
 		if err != nil {
 			run.NewErr = err
 			return
@@ -379,7 +383,7 @@ func runXZWriter(k xzCase) *xzRun {
 			if k.Part == "iocopy" {
 				break
 			}
-			n, err := w.Write(run.Data[pos : pos+l])
+			n, err := callerWrite(w, run.Data[pos:pos+l], k.Seed>>3+uint64(i))
 			run.Calls++
 			if (n != l || err != nil) && run.WriteErr == "" {
 				run.WriteErr = fmt.Sprintf("Write #%d of %d bytes at offset %d returned (%d, %v)", i, l, pos, n, err)
@@ -391,6 +395,7 @@ func runXZWriter(k xzCase) *xzRun {
 			run.WriteErr = fmt.Sprintf("Close returned %v", err)
 			return
 		}
+		finish()
 		before := len(run.Sink.Buf)
 		var dev []string
 		n, err := w.Write([]byte("after close"))
@@ -404,6 +409,7 @@ func runXZWriter(k xzCase) *xzRun {
 		if err := w.Close(); err == nil {
 			dev = append(dev, "second Close returned nil")
 		}
+		finish()
 		if len(run.Sink.Buf) != before {
 			dev = append(dev, fmt.Sprintf("calls after Close emitted %d bytes", len(run.Sink.Buf)-before))
 		}
